@@ -58,7 +58,7 @@ TRUSTED_BASE = [
     "TTLs above 2^31-1 (read as 0 by from_wire) are not generated",
 ]
 ASSUMPTIONS = [
-    "class is outside the Lean model (zone = set of (owner, type+covers, rdata, ttl))",
+    "the record class is outside the Lean model (zone = set of (owner, type+covers, rdata, ttl)); wrong-class records are checked by the direct oracle only (ValueError, zone untouched)",
     "generated versions are valid zones (one TTL per rrset, a CNAME never next to other data, singleton types hold one rdata); faulty streams may break that on the way and the model follows dns.node's exclusion and dns.rdataset's TTL/singleton rules",
     "TSIG on transfers and timeouts are outside the model; end of stream is modelled as EOFError",
     "faults that are undetectable by construction of the protocol (e.g. a dropped non-SOA record of an AXFR) must only be atomic and agree with the model; only the detectable classes named in the theorems must raise",
@@ -1331,7 +1331,7 @@ def replay(ctx: Ctx, obj: dict):
 
 
 LEVEL = {
-    "text": "Lean 4 theorems over an executable model of dns/xfr.py as it is (Inbound.__init__/process_message/__exit__, the message loop of dns.query._inbound_xfr, the UDP-first/TCP-retry glue of dns.query.inbound_xfr, make_query/extract_serial_from_query, RFC 1982 comparison) on an abstract zone = set of (owner, type+covers, rdata, ttl) whose put carries the TTL minimisation and singleton rule of dns.rdataset and the CNAME exclusion of dns.node (tables regenerated from the tree): AXFR, multi-step IXFR (any chain of coherent versions with their computed difference sequences, A<->CNAME replacements and TTL changes included), AXFR-style answers, the up-to-date answer, UDP IXFR and UseTCP->TCP retry converge to the target version (records, TTLs, serial) for every division of the stream into messages; ixfr_denotes states what any applicable difference sequences yield (protocol-undetectable faults: dropped record, record moved across the delete/add boundary); fault families at every position (truncation, bad rcode/question on any message, wrong base / backwards serial, UseTCP, surplus after the final SOA, first rrset not the apex SOA, a dropped or type-corrupted SOA at every place of an IXFR, owner-corrupted SOA in add and delete mode, a deletion sent twice in any sequence, an addition read in delete mode) raise and leave the zone as it was; for all message sequences whatsoever an error is never reported after a commit (error_implies_unapplied, unconditional since 3feda1c). Tied to the code by a differential correspondence check (state after every message, outcome class, zone with TTLs) and a direct oracle (target equality, must-raise classes, atomicity, no transaction left open, retry behaviour).",
+    "text": "Lean 4 theorems over an executable model of dns/xfr.py as it is (Inbound.__init__/process_message/__exit__, the message loop of dns.query._inbound_xfr, the UDP-first/TCP-retry glue of dns.query.inbound_xfr, make_query/extract_serial_from_query, RFC 1982 comparison) on an abstract zone = set of (owner, type+covers, rdata, ttl) whose put carries the TTL minimisation and singleton rule of dns.rdataset and the CNAME exclusion of dns.node (tables regenerated from the tree): AXFR, multi-step IXFR (any chain of coherent versions with their computed difference sequences, A<->CNAME replacements and TTL changes included), AXFR-style answers, the up-to-date answer, UDP IXFR, UseTCP->TCP retry, AXFR with out-of-zone glue in the body (skipped) and transfers read from the wire (parseAnswer: rrset merging before the first SOA of a message, order kept from it on, TTL clamp) converge to the target version (records, TTLs, serial) for every division of the stream into messages; ixfr_denotes states what any applicable difference sequences yield (protocol-undetectable faults: dropped record, record moved across the delete/add boundary); fault families at every position (truncation, bad rcode/question on any message, wrong base / backwards serial, UseTCP, a UDP datagram that ends early, surplus after the final SOA, first rrset not the apex SOA, a dropped or type-corrupted SOA at every place of an IXFR, owner-corrupted SOA in add and delete mode, a deletion sent twice in any sequence, an addition read in delete mode) raise and leave the zone as it was; for all message sequences whatsoever an error is never reported after a commit (error_implies_unapplied, unconditional since 3feda1c). Tied to the code by a differential correspondence check (state after every message, outcome class, zone with TTLs) and a direct oracle (target equality, must-raise classes, atomicity, no transaction left open, retry behaviour).",
     "note": "Trusted: Lean kernel + propext/Classical.choice/Quot.sound; the statements in lean/Props/C13.lean; the correspondence harness and its generators; name canonicalisation (lower-casing) in the driver; sockets are scripted (timeouts, TSIG outside the model). repair_changed_only_d11 / before_repair_surplus_was_committed record what commit 3feda1c changed; reverting it is reported as a violation with the D11 signature.",
     "technique": "Lean 4 proof (state-machine refinement to set-level difference application up to set equality on coherent zones, induction over version chains and message lists, atomicity invariant, variant bisimulation) + model-vs-implementation correspondence + direct oracle",
     "design_ref": "DESIGN.md §7 C13",
